@@ -144,6 +144,30 @@ pub trait DiagramRules<E: Edge, N: InnerNode<E>, T> {
     fn cofactor(tag: E::Tag, node: &N, n: usize) -> Borrowed<'_, E> {
         Self::cofactors(tag, node).nth(n).expect("out of range")
     }
+
+    /// Get the `n`-th cofactor of `edge` with respect to a level that is
+    /// "skipped" by `edge`
+    ///
+    /// Due to the reduction rules, a path does not necessarily contain a node
+    /// for every level. If `edge` is an edge that would have to pass a level
+    /// `l` (i.e., `l` is above the node referenced by `edge`), then the result
+    /// of this method is the `n`-th child that a node at level `l` would need
+    /// to have such that [`Self::reduce()`] returns `edge`. This is needed,
+    /// e.g., to swap adjacent levels.
+    ///
+    /// The default implementation returns a clone of `edge` for every `n`. This
+    /// is correct for all kinds of decision diagrams in which a node is removed
+    /// if and only if all its children are equal (e.g., BDDs).
+    #[inline]
+    #[must_use]
+    fn cofactor_skipped<M: Manager<Edge = E, InnerNode = N, Terminal = T>>(
+        manager: &M,
+        edge: &E,
+        n: usize,
+    ) -> E {
+        let _ = n;
+        manager.clone_edge(edge)
+    }
 }
 
 /// Result of the attempt to create a new node
